@@ -249,8 +249,8 @@ func rulePool(c *Ctx) *RuleResult {
 	}
 	n := 0
 	for _, f := range p.ModFuncs() {
-		if f.Blocks == nil || relPkg(funcPkgPath(f)) != "runtime" {
-			continue
+		if f.Blocks == nil || relPkg(funcPkgPath(f)) != "runtime" || f.Synthetic != "" {
+			continue // synthetic: pointer-receiver wrappers of the value-receiver pools in the no-pool builds
 		}
 		forEachInstr(f, func(ins ssa.Instruction) {
 			call, ok := ins.(ssa.CallInstruction)
